@@ -351,4 +351,27 @@ theorem close_moves_match_source :
     (runS false scDirty closeSched).ph = .closed := by
   decide +kernel
 
+open SST.OrderSpec SST.Generated.Order in
+/-- the flusher goroutine on the path `Close` relies on: one store handed over, then the channel is closed, no error -/
+def cfgFlusherOnce : OrderSpec.Cfg :=
+  { dec := [("simpledb.flushMemstoreContinuously", "err != nil", [false]),
+            ("simpledb.executeFlush", "walPath != \"\"", [true])] ++ commonDec
+    reps := ("simpledb.flushMemstoreContinuously", "db.storeFlushChannel", 1) :: commonReps
+    callee := callees }
+
+open SST.OrderSpec SST.Generated.Order in
+/-- why `<-db.doneFlushChannel` in `Close` may stand for the flusher's flush (the inlining `waitFlusherDone ↦ executeFlush`
+used above), after 6dd9211: on its normal path the flusher goroutine executes the flush of the store handed over —
+table directory … metadata, remove the WAL file, addReader — and sends the done signal as its LAST action, no panic;
+the signal is a plain statement at the end of the function, not a deferred one (`C02.Order.done_signal_not_on_error_path`
+has the error-path half), and the file-system event kinds of this path are the model's `fstep` events. -/
+theorem flusher_signals_done_after_its_flush :
+    (trace cfgFlusherOnce "simpledb.flushMemstoreContinuously").map
+        (fun tr => (acts tr).filter ([Label.mkdirTable, .writeMeta, .removeWalFile, .addReader, .signalFlusherDone, .panicLog].contains ·)) =
+      some [.mkdirTable, .writeMeta, .removeWalFile, .addReader, .signalFlusherDone] ∧
+    (trace cfgFlusherOnce "simpledb.flushMemstoreContinuously").map (fun tr => (acts tr).getLast?) = some (some .signalFlusherDone) ∧
+    srcKinds .table cfgFlusherOnce "simpledb.flushMemstoreContinuously" =
+      some [.tblMkdir, .tblLoadable, .tblMetaCreate, .tblComplete, .walUnlink] := by
+  decide +kernel
+
 end SST.C02.Sessions
